@@ -9,4 +9,5 @@ CONSTANTS
   BoundaryFixed = TRUE
 INVARIANT Inv
 INVARIANT InvRange
+INVARIANT LawsStatic
 CHECK_DEADLOCK FALSE
